@@ -23,6 +23,9 @@ use zipora::algorithms::tournament_tree::{EnhancedLoserTree, LoserTreeConfig};
 use zipora::algorithms::Algorithm;
 use zipora::memory::cache_layout::CacheHierarchy;
 
+#[path = "c11_wide.rs"]
+mod wide;
+
 const HEADER: &str = r#"From ZV.Common Require Import Base Run.
 From ZV.C11 Require Import Model ModelCases.
 Open Scope N_scope.
@@ -68,6 +71,12 @@ struct Case {
     a: Vec<u64>,
     b: Vec<u64>,
     strs: Vec<Vec<u8>>,
+    /// operation history of the breadth cells (c11_wide.rs): one JSON object per step, at the top level of the case
+    /// so that the shrinker deletes whole steps
+    ops: Vec<Value>,
+    /// big input described by (kind, n, seed, bits, k, kind2) instead of being spelled out; expanded into
+    /// xs / strs / runs / a, b when the case is built (wide::fill_from_gen)
+    gen: Vec<u64>,
 }
 fn ju(v: &[u64]) -> Value { json!(v) }
 fn pu(v: &Value) -> Vec<u64> {
@@ -78,13 +87,25 @@ impl Case {
     fn json(&self) -> Value {
         // parameters live in a nested object so that the shrinker (which deletes elements of
         // top-level lists) never changes the configuration
+        if !self.gen.is_empty() {
+            // the input is a function of the descriptor: keep the replay small
+            return json!({"cell": self.cell, "cfg": {"p": self.p, "gen": self.gen}, "ops": self.ops});
+        }
         json!({"cell": self.cell, "cfg": {"p": self.p}, "xs": ju(&self.xs),
                "runs": self.runs.iter().map(|r| ju(r)).collect::<Vec<_>>(),
                "a": ju(&self.a), "b": ju(&self.b),
-               "strs": self.strs.iter().map(|s| json!(s)).collect::<Vec<_>>()})
+               "strs": self.strs.iter().map(|s| json!(s)).collect::<Vec<_>>(),
+               "ops": self.ops})
     }
     fn from_json(v: &Value) -> Case {
+        let mut c = Case::from_json_raw(v);
+        if !c.gen.is_empty() { wide::fill_from_gen(&mut c); }
+        c
+    }
+    fn from_json_raw(v: &Value) -> Case {
         Case {
+            ops: v["ops"].as_array().cloned().unwrap_or_default(),
+            gen: pu(&v["cfg"]["gen"]),
             cell: v["cell"].as_str().unwrap_or("").to_string(),
             p: pu(&v["cfg"]["p"]),
             xs: pu(&v["xs"]),
@@ -95,7 +116,17 @@ impl Case {
         }
     }
     fn pp(&self, i: usize) -> u64 { self.p.get(i).copied().unwrap_or(0) }
-    fn key(&self) -> String { format!("{:?}", self) }
+    fn key(&self) -> String {
+        if !self.gen.is_empty() { return format!("{} {:?} {:?} {:?}", self.cell, self.p, self.gen, self.ops); }
+        format!("{:?}", self)
+    }
+    /// a case whose input is the expansion of a (kind, n, seed, bits, k, kind2) descriptor
+    fn big(cell: &str, p: &[u64], gen: &[u64]) -> Case {
+        let mut c = Case::new(cell, p);
+        c.gen = gen.to_vec();
+        wide::fill_from_gen(&mut c);
+        c
+    }
 }
 
 /// What the implementation produced.
@@ -168,6 +199,8 @@ fn ucmp(a: &u64, b: &u64) -> Ordering { a.cmp(b) }
 /// Run the real code on the case.  Err = the API reported an error.
 fn exec(c: &Case, tmp: &PathBuf) -> Result<Out, String> {
     let cell = c.cell.as_str();
+    // breadth cells judge themselves step by step against their shadow (c11_wide.rs): Err = the violation
+    if wide::handles(cell) { return wide::eval(c, tmp).map(|_| Out::default()); }
     match cell {
         "radix/u32" => {
             let mut d: Vec<u32> = c.xs.iter().map(|&x| x as u32).collect();
@@ -372,6 +405,8 @@ fn exec(c: &Case, tmp: &PathBuf) -> Result<Out, String> {
 fn needs_isolation(c: &Case) -> bool {
     match c.cell.as_str() {
         "co/sort" | "co/oblivious" | "co/sort_u8" | "co/default" => true,
+        // every other CacheObliviousSort cell (element types, histories, execute)
+        s if s.starts_with("co/") => true,
         // recursion depth of the byte-string MSD sort
         "radix/bytes_deep" => true,
         // counting sort sizes its table by the largest value
@@ -496,8 +531,10 @@ fn known_class(c: &Case) -> Option<&'static str> {
             if may_be_lsd && keys.windows(2).any(|w| w[0].0 == w[1].0 && w[0].1 != w[1].1) { Some("string_lsd_key_collision") } else { None }
         }
         "ext/rev" => Some("extsort_comparator_not_ord"),
+        s if wide::handles(s) => wide::known_class(c),
         "kway/inter" => {
-            let general = c.pp(0) == 0 || c.runs.len() > c.pp(1) as usize;
+            // the bit mask is a u32: since fix 6e4ef32 more than 32 ways take the general path whatever the threshold says
+            let general = c.pp(0) == 0 || c.runs.len() > (c.pp(1) as usize).min(32);
             if general && c.runs.iter().any(|r| r.windows(2).any(|w| w[0] == w[1])) { Some("kway_general_duplicates") } else { None }
         }
         _ => None,
@@ -524,6 +561,8 @@ impl Ctx {
         let max_size = match op { 29 | 31 | 32 => 130, 28 | 30 => 400, _ => 90 };
         let n = self.per_op.entry(op + 1000 * flavour).or_insert(0);
         if !force && (self.shards.len() >= self.budget || *n >= cap || size > max_size) { return; }
+        // a replayed / corpus case is always emitted - unless it is a big input (Coq would not get through it)
+        if size > 2000 { return; }
         *n += 1;
         let ins_s: Vec<String> = ins.iter().map(|v| coq_n_list(v.iter().map(|&x| x as u128))).collect();
         let term = format!("({}, {}, [{}], {})", op, coq_n_list(ps.iter().map(|&x| x as u128)), ins_s.join("; "),
@@ -541,15 +580,17 @@ impl Ctx {
 
 fn run_case(cx: &mut Ctx, c: &Case, force: bool) {
     let cell = c.cell.clone();
-    let total = c.xs.len() + c.a.len() + c.b.len() + c.runs.iter().map(|r| r.len()).sum::<usize>() + c.strs.len();
+    let total = c.xs.len() + c.a.len() + c.b.len() + c.runs.iter().map(|r| r.len()).sum::<usize>() + c.strs.len() + 2 * c.ops.len();
     cx.sum.eval(&cell, &c.key(), total >= 2);
     let tmp = cx.tmp.clone();
     let r = if needs_isolation(c) { cx.sum.dist("child_process_cases"); isolated(cx, c) } else { guarded(|| exec(c, &tmp)) };
     let out = match r {
         Err(p) => { cx.fail(c, &format!("panicked / aborted: {}", p)); return; }
+        Ok(Err(e)) if wide::handles(&cell) => { cx.fail(c, &e); return; }
         Ok(Err(e)) => { cx.fail(c, &format!("returned an error where the property demands a result: {}", e)); return; }
         Ok(Ok(o)) => o,
     };
+    if wide::handles(&cell) { return; }
     let family = cell.split('/').next().unwrap_or("");
     match family {
         "radix" | "adv" | "co" | "ext" | "kv" if cell != "radix/bytes" && cell != "adv/str" && cell != "radix/bytes_deep" => {
@@ -607,7 +648,8 @@ fn run_case(cx: &mut Ctx, c: &Case, force: bool) {
                     // path taken (strategy_used, used_parallel).  LSD passes with a wide digit or many passes are
                     // too slow to evaluate in Coq: those cases only go through the verified checker.
                     let took_lsd = out.aux.get(0).copied() == Some(3);
-                    let cheap = !took_lsd || (c.pp(1) >= 3 && c.pp(1) <= 8);
+                    // (a thread count near usize::MAX is a nat in the model's chunking: not evaluable)
+                    let cheap = (!took_lsd || (c.pp(1) >= 3 && c.pp(1) <= 8)) && c.pp(4) <= 4096;
                     if cheap && fits(if took_lsd && out.aux.get(1).copied() == Some(1) { 120 } else { 48 }) {
                         let w = if cell == "adv/u32" { 4 } else { 8 };
                         let (force_s, adaptive) = (if c.pp(0) <= 5 { c.pp(0) } else { 0 }, (c.pp(0) != 6) as u64);
@@ -643,7 +685,7 @@ fn run_case(cx: &mut Ctx, c: &Case, force: bool) {
                     cx.coq(39, &[threads], &[&keys], &e, c, force);
                 }
                 "adv/u64_execute" => {
-                    if fits(48) {
+                    if fits(48) && c.pp(4) <= 4096 {
                         let (force_s, adaptive) = (if c.pp(0) <= 5 { c.pp(0) } else { 0 }, (c.pp(0) != 6) as u64);
                         let nt = if c.pp(4) > 0 { c.pp(4) } else { threads };
                         cx.coq(40, &[8, force_s, adaptive, c.pp(1), c.pp(2), c.pp(3), nt, c.pp(5)], &[&c.xs], &out.ints, c, force);
@@ -677,7 +719,7 @@ fn run_case(cx: &mut Ctx, c: &Case, force: bool) {
                 if cell == "adv/str" { e.extend_from_slice(&out.aux); }
                 for s in &out.strs { e.push(s.len() as u64); e.extend(s.iter().map(|&b| b as u64)); }
                 if cell == "radix/bytes" { cx.coq(28, &[], &refs, &e, c, force); }
-                else {
+                else if c.pp(4) <= 4096 {
                     let (force_s, adaptive) = (if c.pp(0) <= 5 { c.pp(0) } else { 0 }, (c.pp(0) != 6) as u64);
                     let nt = if c.pp(4) > 0 { c.pp(4) } else { cx.threads };
                     let fl = (out.aux.get(0).copied().unwrap_or(0) * 2 + out.aux.get(1).copied().unwrap_or(0)) as u32;
@@ -1133,10 +1175,34 @@ fn all_cases(cx: &mut Ctx, thorough: bool) -> Vec<Case> {
             cases.push(c);
         }
     }
+    wide::cases(&mut r, thorough, &mut cases);
     cx.rng = r;
     // small cases first: the first unlisted failure is the one that gets shrunk
-    cases.sort_by_key(|c| (c.xs.len() > 2000) as u8);
+    cases.sort_by_key(|c| (c.xs.len() > 2000 || !c.gen.is_empty()) as u8);
     cases
+}
+
+/// The case the main thread is working on, for the watchdog: a library call that never returns (an endless merge
+/// loop, say) must end as a failure with a replay, not as a harness that hangs until the check's time-out.
+static CURRENT: std::sync::Mutex<Option<(std::time::Instant, String)>> = std::sync::Mutex::new(None);
+const RULE: &str = "every public sort / merge / set-operation entry point x configuration (radix width 1..16, forced strategy, parallel on/off with small thresholds, thread counts, cache sizes, buffer sizes, fan-in) on boundary-biased inputs (empty, singleton, all equal, sorted, reversed, nearly sorted, high-byte-only differences, 2^k +-1, lengths around the thresholds); loser tree enumerated over 0..3 ways of sorted sequences of length <= 2 over a 3-value alphabet; a case is non-trivial when it has >= 2 input elements; distinct = distinct (cell, configuration, input)";
+fn watch(c: &Case) { *CURRENT.lock().unwrap() = Some((std::time::Instant::now(), c.json().to_string())); }
+fn unwatch() { *CURRENT.lock().unwrap() = None; }
+fn start_watchdog(out: String, limit_s: u64, tmp: PathBuf) {
+    std::thread::spawn(move || loop {
+        std::thread::sleep(std::time::Duration::from_millis(250));
+        let hung = match &*CURRENT.lock().unwrap() { Some((t0, cj)) if t0.elapsed().as_secs() >= limit_s => Some(cj.clone()), _ => None };
+        if let Some(cj) = hung {
+            let v: Value = serde_json::from_str(&cj).unwrap_or(json!({}));
+            let c = Case::from_json(&v);
+            let mut sum = Summary::new("C11", RULE);
+            sum.eval(&c.cell, &c.key(), true);
+            sum.fail(&c.cell, known_class(&c), v, &format!("the call did not return within {} s (endless loop) where the property demands a result", limit_s));
+            sum.write(&out, vec![]);
+            let _ = std::fs::remove_dir_all(&tmp);
+            std::process::exit(0);
+        }
+    });
 }
 
 pub fn run(args: &Args) {
@@ -1158,7 +1224,7 @@ pub fn run(args: &Args) {
         }
     }
     let mut cx = Ctx {
-        sum: Summary::new("C11", "every public sort / merge / set-operation entry point x configuration (radix width 1..16, forced strategy, parallel on/off with small thresholds, thread counts, cache sizes, buffer sizes, fan-in) on boundary-biased inputs (empty, singleton, all equal, sorted, reversed, nearly sorted, high-byte-only differences, 2^k +-1, lengths around the thresholds); loser tree enumerated over 0..3 ways of sorted sequences of length <= 2 over a 3-value alphabet; a case is non-trivial when it has >= 2 input elements; distinct = distinct (cell, configuration, input)"),
+        sum: Summary::new("C11", RULE),
         shards: CoqShards::new(HEADER, 300),
         budget: if args.thorough { 6000 } else { 1500 },
         per_op: Default::default(),
@@ -1167,11 +1233,16 @@ pub fn run(args: &Args) {
         out: args.out.clone(),
         threads: pool_threads(),
     };
+    let limit = std::env::var("ZV_C11_WATCHDOG").ok().and_then(|s| s.parse().ok()).unwrap_or(if args.replay.is_some() { 20 } else { 60 });
+    start_watchdog(args.out.clone(), limit, tmp.clone());
     if let Some(f) = &args.replay {
         let txt = std::fs::read_to_string(f).expect("replay file");
         let v: Value = serde_json::from_str(&txt).expect("replay json");
         let cv = if v.get("case").is_some() { v["case"].clone() } else { v };
-        run_case(&mut cx, &Case::from_json(&cv), true);
+        let c = Case::from_json(&cv);
+        watch(&c);
+        run_case(&mut cx, &c, true);
+        unwatch();
         let sh = cx.shards.write(&args.out);
         cx.sum.write(&args.out, sh);
         let _ = std::fs::remove_dir_all(&tmp);
@@ -1186,7 +1257,10 @@ pub fn run(args: &Args) {
             if let Ok(txt) = std::fs::read_to_string(&p) {
                 if let Ok(v) = serde_json::from_str::<Value>(&txt) {
                     let cv = if v.get("case").is_some() { v["case"].clone() } else { v };
-                    run_case(&mut cx, &Case::from_json(&cv), true);
+                    let c = Case::from_json(&cv);
+                    watch(&c);
+                    run_case(&mut cx, &c, true);
+                    unwatch();
                     cx.sum.dist("corpus_cases");
                 }
             }
@@ -1197,7 +1271,9 @@ pub fn run(args: &Args) {
     let mut fam_ms: std::collections::BTreeMap<String, u128> = Default::default();
     for (i, c) in cases.iter().enumerate() {
         let t0 = std::time::Instant::now();
+        watch(c);
         run_case(&mut cx, c, false);
+        unwatch();
         *fam_ms.entry(c.cell.split('/').next().unwrap_or("").to_string()).or_insert(0) += t0.elapsed().as_micros();
         if i % 97 == 0 { cx.sum.sample(json!({"cell": c.cell, "cfg": c.p, "n": c.xs.len() + c.a.len() + c.b.len() + c.runs.len() + c.strs.len()})); }
         cx.sum.dist(&format!("family={}", c.cell.split('/').next().unwrap_or("")));
@@ -1205,6 +1281,7 @@ pub fn run(args: &Args) {
     for cell in ["co/default", "ext/rev", "lt/rev", "radix/bytes_deep"] {
         cx.sum.cell_status(cell, "S-only");
     }
+    for cell in wide::CELLS { cx.sum.cell_status(cell, "S-only"); }
     for cell in ["adv/str", "ext/rev", "kway/inter"] { cx.sum.cell_status(cell, "finding"); }
     if std::env::var("ZV_C11_TIMING").is_ok() { eprintln!("family time (us): {:?}", fam_ms); }
     cx.sum.dist_max("coq_cases", cx.shards.len() as u64);
